@@ -229,8 +229,9 @@ pub fn describe(redeem: &RedeemNode) -> (J, J, J, HashMap<usize, usize>) {
 
 /// programs whose static bounds exceed the machine's hard limits must be refused, not allocated
 fn limit_events(out: &mut Out, rng: &mut Rng) {
-    for _ in 0..6 {
-        let depth = rng.range(27, 70);
+    for k in 0..8 {
+        // (two of the eight are always beyond 64 doublings, where the bounds saturate)
+        let depth = if k == 0 { 66 } else if k == 1 { 68 } else { rng.range(27, 70) };
         let leaf = *rng.pick(&["word", "jet"]);
         let ev = guarded(|| {
             types::Context::with_context(|ctx| {
@@ -243,6 +244,11 @@ fn limit_events(out: &mut Out, rng: &mut Rng) {
                     let b = nodes.len();
                     nodes.push(json!(["unit", 0, 0]));
                     nodes.push(json!(["comp", b, b + 1]));
+                    if depth % 4 == 2 {
+                        // ... and give the root a non-empty target: the (possibly saturated) extra-cell bound then has
+                        // to be refused on its own, before it is added to the widths of source and target
+                        nodes.push(json!(["pair", b + 2, base]));
+                    }
                 }
                 let n = nodes.len();
                 let dag = json!(nodes);
